@@ -5,6 +5,7 @@
    C09 (every Database access inside the lock of its id), C05 / C04 / C16 / C17 (the value written is the value read with
    the id at the front; membership / seen-before test and write under one hold) establish for the model programs. *)
 From Coq Require Import String List Bool Arith Permutation.
+From Verif Require Import Base.Json Base.Free Pub.Events Pub.Calls Pub.Value Pub.Util Pub.SideEffect Pub.Fed Proofs.OrderProofs Proofs.ForwardIffProofs Proofs.SectionProofs.
 From Verif Require Import Base.ListX Conc.Model Conc.Proofs.
 Import ListNotations.
 Open Scope string_scope.
@@ -34,9 +35,77 @@ Proof. exact conditional_present. Qed.
 Theorem C08_no_deadlock : forall init progs g, reach (initial init progs) g -> existsb unfinishedb (g_threads g) = true -> exists g', step g g'.
 Proof. exact progress. Qed.
 
+(* ---- the bridge to package pub (Proofs/SectionProofs.v): each collection update of the sequential model IS one critical
+   section of the Conc model, for EVERY environment - bracketed by Lock / Unlock of one id, Database calls only in between,
+   the reads first and at most one write, last; and the value written is Conc's `write` of the value read under that hold.
+   page_ids: the ids a stored page lists.  The Database contract used: InboxContains answers whether the id is on the page. ---- *)
+Theorem C08_inbox_update_is_a_section : forall env inbox a,
+  is_section inbox inbox_reads inbox_writes (ans_ok (env (ELock inbox))) (evs_env env (add_to_inbox_if_new inbox a)).
+Proof. exact inbox_section. Qed.
+Theorem C08_inbox_section_refines : forall env inbox a page m,
+  let id := id_str a in
+  let sec := {| s_col := inbox; s_id := id; s_cond := true |} in
+  let e1 := EDb "InboxContains" [JStr inbox; JStr id] in
+  let e2 := EDb "GetInbox" [JStr inbox] in
+  env (ELock inbox) = AOk ->
+  env e2 = AJson page -> page = JObj m -> all_iris (listing page) ->
+  env e1 = ABool (mem id (page_ids page)) ->
+  if stops sec (page_ids page)
+  then evs_env env (add_to_inbox_if_new inbox a) = [ELock inbox; e1; EUnlock inbox] /\
+       res_env env (add_to_inbox_if_new inbox a) = Ok false /\
+       write sec (page_ids page) = page_ids page
+  else exists w, evs_env env (add_to_inbox_if_new inbox a) = [ELock inbox; e1; e2; EDb "SetInbox" [w]; EUnlock inbox] /\
+       page_ids w = write sec (page_ids page) /\
+       res_env env (add_to_inbox_if_new inbox a) = (if ans_ok (env (EDb "SetInbox" [w])) then Ok true else Err EGeneric).
+Proof. exact inbox_is_model_section. Qed.
+Theorem C08_outbox_section_refines : forall env outbox a page m,
+  let id := id_str a in
+  let sec := {| s_col := outbox; s_id := id; s_cond := false |} in
+  let c := EDb "Create" [canon a] in
+  let e1 := EDb "GetOutbox" [JStr outbox] in
+  env (ELock id) = AOk -> env c = AOk -> env (ELock outbox) = AOk ->
+  env e1 = AJson page -> page = JObj m -> all_iris (listing page) ->
+  stops sec (page_ids page) = false /\
+  exists w, evs_env env (add_to_outbox outbox a) = [ELock id; c; EUnlock id; ELock outbox; e1; EDb "SetOutbox" [w]; EUnlock outbox] /\
+    page_ids w = write sec (page_ids page) /\
+    res_env env (add_to_outbox outbox a) = (if ans_ok (env (EDb "SetOutbox" [w])) then Ok tt else Err EGeneric).
+Proof. exact outbox_is_model_section. Qed.
+(* likes / shares, Add / Remove targets, followers, following: sections on the object / target / actor id whose single write is
+   a pure function of the value read under the same hold (the functions are those of C04 / C16) *)
+Theorem C08_like_update_is_a_section : forall env cp id e,
+  match to_id "object" e with
+  | Ok obj_id =>
+      is_section obj_id upd_reads upd_writes (ans_ok (env (ELock obj_id))) (evs_env env (like_loop cp id e)) /\
+      forall w, In w (evs_env env (like_loop cp id e)) -> upd_writes w = true ->
+        env (ELock obj_id) = AOk /\ env (EDb "Owns" [JStr obj_id]) = ABool true /\
+        exists t t', env (EDb "Get" [JStr obj_id]) = AJson t /\ prepend_on cp id t = Ok t' /\ w = EDb "Update" [canon t']
+  | _ => evs_env env (like_loop cp id e) = []
+  end.
+Proof. exact like_loop_section. Qed.
+(* every one of these programs holds one lock at a time - the hypothesis of C08_no_deadlock - for every environment; so does
+   the client-side Like, whose wrapped application callback runs while the actor's lock is still held (soc_like_hold) *)
+Theorem C08_sites_hold_one_lock_at_a_time : forall env,
+  (forall inbox a, one_lock_at_a_time env (evs_env env (add_to_inbox_if_new inbox a))) /\
+  (forall outbox a, one_lock_at_a_time env (evs_env env (add_to_outbox outbox a))) /\
+  (forall cp id e, one_lock_at_a_time env (evs_env env (like_loop cp id e))) /\
+  (forall cp id l, one_lock_at_a_time env (evs_env env (foreach l (like_loop cp id)))) /\
+  (forall op_ids t, one_lock_at_a_time env (evs_env env (add_loop op_ids t))) /\
+  (forall op_ids l, one_lock_at_a_time env (evs_env env (foreach l (add_loop op_ids)))) /\
+  (forall op_ids t, one_lock_at_a_time env (evs_env env (remove_loop op_ids t))) /\
+  (forall op_ids l, one_lock_at_a_time env (evs_env env (foreach l (remove_loop op_ids)))) /\
+  (forall read_op actor f, read_op <> "Update" -> one_lock_at_a_time env (evs_env env (coll_update read_op actor f))) /\
+  (forall actor al, one_lock_at_a_time env (evs_env env (following_update actor al))) /\
+  (forall cfg actor a, one_lock_at_a_time env (evs_env env (with_lock_deferred actor (soc_like_body cfg actor a)))).
+Proof. exact sites_one_lock. Qed.
+
 Print Assumptions C08_serialisable.
 Print Assumptions C08_no_lost_update.
 Print Assumptions C08_contents.
 Print Assumptions C08_duplicate_once.
 Print Assumptions C08_duplicate_present.
 Print Assumptions C08_no_deadlock.
+Print Assumptions C08_inbox_update_is_a_section.
+Print Assumptions C08_inbox_section_refines.
+Print Assumptions C08_outbox_section_refines.
+Print Assumptions C08_like_update_is_a_section.
+Print Assumptions C08_sites_hold_one_lock_at_a_time.
